@@ -29,11 +29,19 @@ type verifSpec struct {
 
 var verifNames = []string{"error", "a", "b"}
 
+// verifEmptyMessages: operands may carry an empty message (3-operand harnesses
+// only: with 4 operands the extra length choice exceeds the path budget)
+var verifEmptyMessages bool
+
 // verifOperand draws the symbolic description of operand i.
 func verifOperand(i string, kinds int) verifSpec {
 	var s verifSpec
 	k := nondetChoice("kind"+i, kinds)
-	s.msg = nondetStringUpTo("msg"+i, 1) // possibly empty
+	if verifEmptyMessages {
+		s.msg = nondetStringUpTo("msg"+i, 1) // possibly empty
+	} else {
+		s.msg = nondetString("msg"+i, 1)
+	}
 	switch k {
 	case 0: // service error without cause
 		s.isSvc = true
@@ -164,6 +172,7 @@ func verifCheckMerged(tag string, got error, specs []verifSpec, checkHistory boo
 }
 
 func verifMerge3(kinds int, history bool) {
+	verifEmptyMessages = true
 	s := []verifSpec{verifOperand("0", kinds), verifOperand("1", kinds), verifOperand("2", kinds)}
 	// ((a b) c)
 	l := MergeErrors(MergeErrors(verifBuild(s[0]), verifBuild(s[1])), verifBuild(s[2]))
@@ -181,6 +190,7 @@ func VerifC18_Merge3() { verifMerge3(6, false) }
 func VerifC18_History3() { verifMerge3(3, true) }
 
 func verifMerge4(kinds int, history bool) {
+	verifEmptyMessages = false
 	s := []verifSpec{verifOperand("0", kinds), verifOperand("1", kinds), verifOperand("2", kinds), verifOperand("3", kinds)}
 	b := func(i int) error { return verifBuild(s[i]) }
 	m := MergeErrors
